@@ -733,3 +733,196 @@ def r_root_plain_open_ended(ctx, repo):
                   'directive line as a continuation of the plain scalar (dump_all(["foo", 12], version=(1, 1)) loads as '
                   '["foo %YAML 1.1", ...])')
     return rule
+
+
+# =================================================================================================== C12 rules
+def _writes_indicator(n, text):
+    """CFG node n writes the indicator `text` (self.write_indicator('<text>', ...))"""
+    if n.ast is None:
+        return False
+    for x in own_exprs(n):
+        if isinstance(x, ast.Call) and isinstance(x.func, ast.Attribute) and x.func.attr == 'write_indicator' and x.args \
+                and isinstance(x.args[0], ast.Constant) and isinstance(x.args[0].value, str) and x.args[0].value.strip() == text:
+            return True
+    return False
+
+
+def _emitter_scenario(repo, name):
+    from .rules_emit import Scenario
+    E = repo.cls('emitter.Emitter')
+    f = E.methods.get(name)
+    if f is None:
+        raise AnalysisError('Emitter.%s has vanished' % name)
+    return f, Scenario(repo, f)
+
+
+def _event_hook(f, kind, repo, env=None, extra=None):
+    """decides isinstance(self.event, K) for an event of class `kind`, and tests of a local bound once to a boolean
+    expression by three-valued evaluation of that expression under env"""
+    from . import charworld as CW
+    ev = repo.modules['events']
+    me = f.params[0]
+
+    def sub(a, b):
+        ka, kb = ev.classes.get(a), ev.classes.get(b)
+        return ka is not None and kb is not None and (a == b or ka.is_subclass_of(kb))
+
+    def atom(t):
+        if isinstance(t, ast.Call) and isinstance(t.func, ast.Name) and t.func.id == 'isinstance' and len(t.args) == 2 \
+                and A.is_attr(t.args[0], me, 'event'):
+            ks = t.args[1].elts if isinstance(t.args[1], ast.Tuple) else [t.args[1]]
+            if all(isinstance(k, ast.Name) for k in ks):
+                return any(sub(kind, k.id) for k in ks)
+        if extra is not None:
+            v = extra(t)
+            if v is not None:
+                return v
+        return CW.eval_cond(repo, t, env or {})
+
+    def hook(e):
+        inner, pos = A.strip_not(e)
+        v = None
+        if isinstance(inner, ast.Name) and inner.id not in (env or {}):
+            defs = [x.value for x in walk_function(f.node) if isinstance(x, ast.Assign)
+                    and any(isinstance(tg, ast.Name) and tg.id == inner.id for tg in x.targets)]
+            if len(defs) == 1 and isinstance(defs[0], (ast.BoolOp, ast.UnaryOp, ast.Compare)):
+                v = A.eval3(defs[0], atom)
+        else:
+            v = atom(inner)
+        if v is None:
+            return None
+        return v if pos else (not v)
+    return hook
+
+
+def r_document_separators(ctx, repo):
+    """C12, writing side, decided on the emitter's document states for every event payload:
+    (a) a document that is not the first of the stream always gets its `---` (the implicit form exists for the first only);
+    (b) an explicit document end always writes `...`;
+    (c) at the end of the stream an open-ended document is closed with `...` before the stream ends."""
+    rule = ctx.rule('R-DOCUMENT-SEPARATORS', 'every document after the first is introduced by "---", an explicit end writes "...", and an '
+                                             'open-ended last document is closed with "..." before the stream ends')
+    f, S = _emitter_scenario(repo, 'expect_document_start')
+    cfg = S.cfg
+    me = f.params[0]
+    first = f.params[1] if len(f.params) > 1 else None
+    if first is None:
+        raise AnalysisError('expect_document_start: no parameter that tells the first document from the others')
+    dashes = [n for n in cfg.nodes if _writes_indicator(n, '---')]
+    dots = [n for n in cfg.nodes if _writes_indicator(n, '...')]
+    if not dashes or not dots:
+        raise AnalysisError('expect_document_start: the writes of "---" / "..." were not found')
+    state_sets = [n for n in cfg.nodes if isinstance(n.ast, ast.Assign) and any(A.is_attr(t, me, 'state') for t in n.ast.targets)]
+    # (a)
+    r = S.reach(env={first: False}, blocked=dashes, hook=_event_hook(f, 'DocumentStartEvent', repo, {first: False}))
+    leak = [n for n in state_sets if n in r and 'root' in norm(n.ast.value)] or [x for x in cfg.normal_exits() if x in r]
+    if leak:
+        rule.fail('%s|no-separator' % f.qualname, f.module.rel, dashes[0].lineno, f.qualname, 'write_indicator("---")',
+                  'a document that is not the first of the stream can be started without "---": its text runs on from the previous '
+                  'document, so the stream reads back as fewer documents (or does not parse)')
+    else:
+        rule.ok(f.loc(dashes[0].ast), 'documents after the first always get "---"')
+    # (c)
+    ends = [n for n in cfg.nodes if n.ast is not None and any(
+        isinstance(x, ast.Call) and isinstance(x.func, ast.Attribute) and x.func.attr == 'write_stream_end' for x in own_exprs(n))]
+    if not ends:
+        raise AnalysisError('expect_document_start: write_stream_end() not found')
+    r = S.reach(table={'self.open_ended': True}, blocked=dots, hook=_event_hook(f, 'StreamEndEvent', repo))
+    if any(n in r for n in ends):
+        rule.fail('%s|open-ended-at-end' % f.qualname, f.module.rel, ends[0].lineno, f.qualname, 'self.write_stream_end()',
+                  'the stream can end while the last document is open-ended without "..." being written: the trailing line breaks of '
+                  'a keep-chomped block scalar / the extent of a root plain scalar are then not what was emitted')
+    else:
+        rule.ok(f.loc(ends[0].ast), 'an open-ended last document is closed before the stream ends')
+    # (b)
+    g, S2 = _emitter_scenario(repo, 'expect_document_end')
+    dots2 = [n for n in S2.cfg.nodes if _writes_indicator(n, '...')]
+    r = S2.reach(table={'self.event.explicit': True}, blocked=dots2, hook=_event_hook(g, 'DocumentEndEvent', repo))
+    if not dots2 or any(x in r for x in S2.cfg.normal_exits()):
+        rule.fail('%s|explicit-end' % g.qualname, g.module.rel, (dots2[0].lineno if dots2 else g.node.lineno), g.qualname, 'write_indicator("...")',
+                  'a DocumentEndEvent with explicit=True can be processed without writing "...": explicit_end is not honoured and '
+                  'an open-ended document is not closed')
+    else:
+        rule.ok(g.loc(dots2[0].ast), 'explicit document end writes "..."')
+    return rule
+
+
+def r_keep_chomp_open_ended(ctx, repo):
+    """C12: a block scalar written with the keep indicator `+` ends in line breaks that belong to it; only a following
+    document marker delimits them, so the writer marks the document open-ended.  Decided for write_folded / write_literal:
+    on every path on which the written hints end with '+', self.open_ended = True is assigned."""
+    rule = ctx.rule('R-KEEP-CHOMP-OPEN-ENDED', 'write_folded / write_literal set self.open_ended whenever the chomping indicator they write is "+"')
+    for name in ('write_folded', 'write_literal'):
+        f, S = _emitter_scenario(repo, name)
+        me = f.params[0]
+        marks = [n for n in S.cfg.nodes if isinstance(n.ast, ast.Assign) and any(A.is_attr(t, me, 'open_ended') for t in n.ast.targets)
+                 and isinstance(n.ast.value, ast.Constant) and n.ast.value.value is True]
+        hint_names = {t.id for x in walk_function(f.node) if isinstance(x, ast.Assign) and isinstance(x.value, ast.Call)
+                      and isinstance(x.value.func, ast.Attribute) and x.value.func.attr == 'determine_block_hints'
+                      for t in x.targets if isinstance(t, ast.Name)}
+        if not hint_names:
+            raise AnalysisError('%s: the call of determine_block_hints was not found' % f.qualname)
+
+        def hook(e, hint_names=hint_names):
+            inner, pos = A.strip_not(e)
+            v = None
+            if isinstance(inner, ast.Compare) and len(inner.ops) == 1 and isinstance(inner.ops[0], (ast.Eq, ast.NotEq)) \
+                    and A.const_str(inner.comparators[0]) == '+' and isinstance(inner.left, ast.Subscript) \
+                    and isinstance(inner.left.value, ast.Name) and inner.left.value.id in hint_names:
+                v = isinstance(inner.ops[0], ast.Eq)
+            elif isinstance(inner, ast.Call) and isinstance(inner.func, ast.Attribute) and inner.func.attr == 'endswith' \
+                    and isinstance(inner.func.value, ast.Name) and inner.func.value.id in hint_names and inner.args \
+                    and A.const_str(inner.args[0]) == '+':
+                v = True
+            elif isinstance(inner, ast.Compare) and len(inner.ops) == 1 and isinstance(inner.ops[0], (ast.In, ast.NotIn)) \
+                    and A.const_str(inner.left) == '+' and isinstance(inner.comparators[0], ast.Name) \
+                    and inner.comparators[0].id in hint_names:
+                v = isinstance(inner.ops[0], ast.In)
+            if v is None:
+                return None
+            return v if pos else (not v)
+        r = S.reach(blocked=marks, hook=hook)
+        if not marks or any(x in r for x in S.cfg.normal_exits()):
+            rule.fail('%s|keep' % f.qualname, f.module.rel, f.node.lineno, f.qualname, 'def %s' % name,
+                      '%s can write a block scalar with the keep indicator "+" without setting self.open_ended: the "..." that '
+                      'delimits its trailing line breaks from the next document (or the end of the stream) is not written' % name)
+        else:
+            rule.ok(f.loc(marks[0].ast), '%s: "+" implies open_ended' % name)
+    return rule
+
+
+# --------------------------------------------------------------------------------------------- R-LOOKUP-RUNS-NO-CODE
+def r_lookup_runs_no_code(ctx, repo):
+    """C04: full loading "never imports, calls or instantiates".  The one name lookup the full loader performs is
+    find_python_name(unsafe=False): hasattr / getattr with a document-chosen name on an object taken from sys.modules.
+    An attribute lookup is not passive in Python: a module can define `__getattr__` (PEP 562; the standard library uses it for
+    lazy sub-module imports), and attributes can be descriptors.  Every such lookup with a non-constant name that is reachable
+    with unsafe false is therefore reported: code chosen by the document may run, including an import."""
+    rule = ctx.rule('R-LOOKUP-RUNS-NO-CODE', 'no attribute lookup with a document-chosen name is reachable in the full loader (module-level '
+                                             '__getattr__ and descriptors make such a lookup run code)')
+    f = _method(repo, 'constructor.FullConstructor', 'find_python_name')
+    from .rules_emit import Scenario
+    S = Scenario(repo, f)
+    flag = None
+    for p_, d in f.defaults().items():
+        if isinstance(d, ast.Constant) and d.value is False:
+            flag = p_
+    env = {flag: False} if flag else {}
+    r = S.reach(env=env)
+    n = 0
+    for node in S.cfg.nodes:
+        if node not in r or node.ast is None:
+            continue
+        for x in own_exprs(node):
+            if isinstance(x, ast.Call) and isinstance(x.func, ast.Name) and x.func.id in ('getattr', 'hasattr') and len(x.args) >= 2 \
+                    and not isinstance(x.args[1], ast.Constant):
+                n += 1
+                rule.fail('%s|%s|doc-named' % (f.qualname, x.func.id), f.module.rel, x.lineno, f.qualname, A.anon_text(x, f.node, 50),
+                          '%s() with a name taken from the document on an object from sys.modules is reachable in the full loader: '
+                          'a module-level __getattr__ (PEP 562) or a descriptor runs code chosen by the document'
+                          % x.func.id,
+                          inp="import concurrent.futures; yaml.full_load('!!python/name:concurrent.futures.ThreadPoolExecutor')  "
+                              "-> imports concurrent.futures.thread (module __getattr__)")
+    if n == 0:
+        rule.ok(f.loc(), 'no document-named attribute lookup reachable with unsafe false')
+    return rule
